@@ -2,7 +2,7 @@
 //! trivial reference model, evaluating every oracle after every operation.
 
 use crate::desc::*;
-use crate::gen_r7 as g;
+use crate::g;
 use crate::medium;
 use crate::obs::*;
 use crate::ops::*;
